@@ -41,7 +41,7 @@ template <class M> static void observe(const M &m, Obs &o) {
   for (int v = 0; v < MAXV; ++v) if (v < o.s.nV) pos_of(m, v, o.pos[v]);
 }
 // same entities, definitions, deletion state, modes, incidence settings (and positions at a symbolic probe vertex)
-static void same_mesh_state(const Obs &a, const Obs &b, bool geo, const char *what) {
+static inline __attribute__((always_inline)) void same_mesh_state(const Obs &a, const Obs &b, bool geo, const char *what) {
   v_assert(!a.s.overflow && !b.s.overflow, "C13 harness capacity");
   v_assert(snap_equal(a.s, b.s), what);
   v_assert(a.deferred == b.deferred && a.fast == b.fast, "C13 same deletion modes");
@@ -64,7 +64,7 @@ template <class M> static void read_persistent(M &m, PVals &o) {
   if (hq.has_value()) v_assert((int)hq->size() == o.n, "C13 persistent property sized to its mesh");
   for (int v = 0; v < MAXV; ++v) if (v < o.n) { o.p[v] = hp.has_value() ? (*hp)[VH(v)] : 0; o.q[v] = hq.has_value() ? (bool)(*hq)[VH(v)] : false; }
 }
-static void same_persistent(const PVals &a, const PVals &b, const char *what) {
+static inline __attribute__((always_inline)) void same_persistent(const PVals &a, const PVals &b, const char *what) {
   v_assert(a.has_p && a.has_q && b.has_p && b.has_q, "C13 persistent properties findable, shared and persistent on both meshes");
   v_assert(a.n == b.n, "C13 persistent properties sized alike");
   if (a.n > 0 && a.n == b.n) {
